@@ -10,7 +10,7 @@ import (
 
 // the language's vocabulary for token edits
 var c17Words = []string{"var", "def", "eval", "print", "bind", "true", "false", "nil", "not", "and", "or",
-	"x", "y", "zz", "struct", "slice", "first", "last", "all",
+	"x", "y", "zz", "_u", "struct", "slice", "first", "last", "all",
 	"1", "0", "42", "2.5", `"s"`, `""`,
 	"=", "==", "!=", "<", "<=", ">", ">=", "+", "-", "*", "/", "(", ")", "{", "}", ":", "->", ";"}
 
@@ -30,7 +30,7 @@ func c17Layout(r *rand.Rand, hostile bool) lang.LayoutOpts {
 	if !hostile {
 		return lang.LayoutOpts{}
 	}
-	return lang.LayoutOpts{Hostile: true, Newlines: true, Comments: r.Intn(2) == 0, MultiByteWS: r.Intn(3) == 0, TouchProb: 25, LeadTrail: true}
+	return lang.LayoutOpts{Hostile: true, Newlines: true, Comments: r.Intn(2) == 0, MultiByteWS: r.Intn(3) == 0, TouchProb: []int{25, 60, 100}[r.Intn(3)], LeadTrail: true}
 }
 
 // c17One checks one token sequence. It returns the verdict kind.
